@@ -24,6 +24,7 @@ type simNet struct {
 	log        []netEvent
 	drop       func(from, to uint16, m *tss.IncMessage, nthFromSource int) bool
 	onSend     func(from, to uint16, m *tss.IncMessage)
+	hold       func(from, to uint16, m *tss.IncMessage) bool // true: the head of this link stays queued for now
 	stopped    bool
 	wg         sync.WaitGroup
 	concurrent bool // one dispatcher goroutine per link instead of the single scheduler (race runs)
@@ -72,7 +73,7 @@ func (n *simNet) start(r *prng.R) {
 		for !n.stopped {
 			var links [][2]uint16
 			for k, q := range n.queues {
-				if len(q) > 0 {
+				if len(q) > 0 && (n.hold == nil || !n.hold(k[0], k[1], q[0])) {
 					links = append(links, k)
 				}
 			}
